@@ -836,11 +836,29 @@ where
         let num_betas = opening_proof.commit_phase_commits.len();
         let num_queries = opening_proof.query_proofs.len();
 
+        // `get_challenges_circuit` pairs commit-phase commitments with PoW witnesses, so a proof
+        // whose two lists differ in length yields fewer betas than commitments.
+        if challenges.len() < 1 + num_betas || opening_proof.commit_pow_witnesses.len() != num_betas
+        {
+            return Err(VerificationError::InvalidProofShape(format!(
+                "expected {} FRI betas / commit-phase PoW witnesses, got {} / {}",
+                num_betas,
+                challenges.len().saturating_sub(1),
+                opening_proof.commit_pow_witnesses.len()
+            )));
+        }
         let alpha = challenges[0];
         let betas = &challenges[1..1 + num_betas];
 
         let total_log_reduction: usize = opening_proof.log_arities.iter().sum();
-        let log_max_height = total_log_reduction + log_final_poly_len + log_blowup;
+        let log_max_height = total_log_reduction
+            .checked_add(log_final_poly_len)
+            .and_then(|x| x.checked_add(log_blowup))
+            .ok_or_else(|| {
+                VerificationError::InvalidProofShape(
+                    "FRI parameters out of range: log_max_height overflows".to_string(),
+                )
+            })?;
 
         let max_query_index_bits = Val::<SC>::bits();
         if log_max_height > max_query_index_bits {
@@ -1236,11 +1254,28 @@ where
         let num_betas = fri_proof.commit_phase_commits.len();
         let num_queries = fri_proof.query_proofs.len();
 
+        // `get_challenges_circuit` pairs commit-phase commitments with PoW witnesses, so a proof
+        // whose two lists differ in length yields fewer betas than commitments.
+        if challenges.len() < 1 + num_betas || fri_proof.commit_pow_witnesses.len() != num_betas {
+            return Err(VerificationError::InvalidProofShape(format!(
+                "expected {} FRI betas / commit-phase PoW witnesses, got {} / {}",
+                num_betas,
+                challenges.len().saturating_sub(1),
+                fri_proof.commit_pow_witnesses.len()
+            )));
+        }
         let alpha = challenges[0];
         let betas = &challenges[1..1 + num_betas];
 
         let total_log_reduction: usize = fri_proof.log_arities.iter().sum();
-        let log_max_height = total_log_reduction + log_final_poly_len + log_blowup;
+        let log_max_height = total_log_reduction
+            .checked_add(log_final_poly_len)
+            .and_then(|x| x.checked_add(log_blowup))
+            .ok_or_else(|| {
+                VerificationError::InvalidProofShape(
+                    "FRI parameters out of range: log_max_height overflows".to_string(),
+                )
+            })?;
 
         let max_query_index_bits = Val::<SC>::bits();
         if log_max_height > max_query_index_bits {
